@@ -1,6 +1,6 @@
 CHECK = dict(
     level='model_checking',
-    parts=[dict(name='sched3', src=['harness/sched.c'], cflags=['-DPROP=3'], workers=12,
+    parts=[dict(name='sched3', src=['harness/sched.c'], lib=['list.c', 'messageq.c', 'util.c', '@VERIF@/harness/sched_shim.c'], cflags=['-DPROP=3'], workers=12,
                 deadline=dict(quick=100, thorough=1200)),
            dict(name='c03s', src=['harness/c06_fibre.c'], cflags=['-DPROP=3', '-Wno-format-truncation'], workers=64,
                 objs=[('@VERIF@/harness/c06_scn.c', ['-fsanitize=thread'])],
